@@ -114,8 +114,27 @@ class StubSim(mosaik_api_v3.Simulator):
             meta["api_version"] = api
         if spec.get("set_events"):
             meta["set_events"] = True
+        if spec.get("extra_methods"):
+            meta["extra_methods"] = list(spec["extra_methods"])
         self.meta = meta
         return self.meta
+
+    # extra methods (offered through meta['extra_methods'], called from the scenario script)
+    def _extra(self, name, arg):
+        self.run.rec("extra", self.sid, name, arg)
+        return f"{self.sid}.{name}({arg})"
+
+    def setup(self, arg=None):
+        return self._extra("setup", arg)
+
+    def done(self, arg=None):
+        return self._extra("done", arg)
+
+    def set(self, arg=None):
+        return self._extra("set", arg)
+
+    def calibrate(self, arg=None):
+        return self._extra("calibrate", arg)
 
     def create(self, num, model, **params):
         n0 = getattr(self, "_n_created", 0)
